@@ -343,6 +343,123 @@ def explore_two_writers(base: str, cfg: dict, max_preempt) -> core.Acc:
 
 
 # ------------------------------------------------------------------------------------------------
+# conformance: the same scenarios in a child process under strace, killed (SIGKILL) on entry to every syscall
+
+import json as _json
+import re as _re
+import subprocess as _subprocess
+
+TRACE_SET = 'openat,write,close,rename,renameat,renameat2,unlink,unlinkat,mkdir,mkdirat'
+_CALL = _re.compile(r'^\d+\s+(\w+)\((.*)$')
+
+
+def _strace(base: str, spec: dict, dest: str, inject: str | None, tag: str):
+    log = os.path.join(base, f'strace-{tag}.log')
+    cmd = ['strace', '-f', '-o', log, '-e', 'trace=' + TRACE_SET]
+    if inject:
+        cmd += ['-e', inject]
+    env = dict(os.environ, PYTHONPATH=f'{core.VERIF}:{core.REPO}/src:{core.VERIF}/shims', PYTHONHASHSEED='0', PYTHONDONTWRITEBYTECODE='1')
+    cmd += ['/venv/bin/python', '-m', 'checks.c12_child', _json.dumps(spec), dest]
+    r = _subprocess.run(cmd, env=env, cwd=core.VERIF, capture_output=True, text=True, timeout=120)
+    with open(log, errors='replace') as f:
+        lines = f.read().split('\n')
+    return r, lines
+
+
+def explore_strace(base: str, spec: dict) -> core.Acc:
+    """(1) the real syscall trace of the fault-free run must agree with the in-process operation log on the order of
+    directory-affecting operations and on the bytes written; (2) a real SIGKILL on entry to every post-start syscall
+    leaves the destination old or new."""
+    acc = core.Acc()
+    case = {'spec': spec, 'mode': 'strace'}
+    rel_dest = os.path.join('sub', 'deeper', 'dest.bin') if spec.get('subdir') else 'dest.bin'
+    # in-process model log
+    ctl, raised, dest0, root0, _ = run_once(base, spec)
+    model = [(op, d) for _, op, d in ctl.log]
+    with open(dest0, 'rb') as f:
+        new_hash = sha(f.read()) if raised is None else None
+    old_hash = sha(OLD) if spec.get('old') else None
+    # profile run under strace
+    root = fresh_dir(base, 'st')
+    setup, _, _ = scenario(spec)
+    dest = setup(root)
+    r, lines = _strace(base, spec, dest, None, 'profile')
+    acc.evaluations += 1
+    try:
+        mark = next(i for i, ln in enumerate(lines) if 'C12MARK' in ln)
+        end = next(i for i, ln in enumerate(lines) if 'C12DONE' in ln)
+    except StopIteration:
+        acc.fail('harness_strace_failed', case, f'{spec}: strace profile run produced no markers: rc={r.returncode} {r.stderr[-300:]}')
+        return acc
+    pre_counts: dict = {}
+    for ln in lines[:mark + 1]:
+        m = _CALL.match(ln)
+        if m:
+            pre_counts[m.group(1)] = pre_counts.get(m.group(1), 0) + 1
+    post = []
+    for ln in lines[mark + 1:end]:
+        m = _CALL.match(ln)
+        if m and 'C12RAISED' not in ln:
+            post.append((m.group(1), m.group(2)))
+    # ---- conformance of the interposer's model with the kernel-level trace
+    real_dir_ops = []
+    real_bytes = 0
+    tmp_fd = None
+    for name, args in post:
+        if name in ('openat',) and 'tmp_' in args and 'O_EXCL' in args:
+            real_dir_ops.append('open')
+            mfd = _re.search(r'=\s*(\d+)\s*$', args)
+            tmp_fd = mfd.group(1) if mfd else None
+        elif name == 'write' and tmp_fd is not None and args.startswith(tmp_fd + ','):
+            mres = _re.search(r'=\s*(\d+)\s*$', args)
+            real_bytes += int(mres.group(1)) if mres else 0
+        elif name == 'close' and tmp_fd is not None and args.startswith(tmp_fd + ')'):
+            real_dir_ops.append('close')
+            tmp_fd = None
+        elif name.startswith('rename') and 'tmp_' in args:
+            real_dir_ops.append('replace')
+        elif name.startswith('unlink') and 'tmp_' in args:
+            real_dir_ops.append('unlink')
+    model_dir_ops = [op for op, d in model if op in ('open', 'close', 'replace', 'unlink')]
+    model_bytes = sum(int(d.rsplit(':', 1)[1]) for op, d in model if op == 'write')
+    acc.outcome(('trace', tuple(real_dir_ops)))
+    if real_dir_ops != model_dir_ops:
+        acc.fail('model_trace_mismatch', case, f'{spec}: kernel-level directory operations {real_dir_ops} differ from the interposer log {model_dir_ops}')
+    if spec['kind'] in ('bytes', 'twice', 'bsp') and raised is None and real_bytes != model_bytes:
+        acc.fail('model_trace_mismatch', case, f'{spec}: {real_bytes} bytes written at syscall level, interposer saw {model_bytes}')
+    # ---- real SIGKILL at every syscall after the start marker
+    seen: dict = {}
+    points = []
+    for name, args in post:
+        seen[name] = seen.get(name, 0) + 1
+        points.append((name, pre_counts.get(name, 0) + seen[name], args[:60]))
+    allowed = {old_hash, new_hash} if spec.get('raise_at') is None else {old_hash}
+    if spec['kind'] == 'twice':
+        allowed = {old_hash, sha(b'FIRST-GENERATION'), new_hash}
+    for j, (name, when, args) in enumerate(points):
+        acc.evaluations += 1
+        acc.nontrivial += 1
+        root = fresh_dir(base, 'st')
+        dest = setup(root)
+        r, lines2 = _strace(base, spec, dest, f'inject={name}:signal=KILL:when={when}', 'kill')
+        killed = any('killed by SIGKILL' in ln for ln in lines2)
+        if not killed:
+            acc.count('strace_kill_not_delivered')
+            continue
+        snap = faultfs.dir_snapshot(root)
+        got = snap.get(rel_dest)
+        acc.outcome(('kill', name, 'old' if got == old_hash else 'new' if got == new_hash else 'other'))
+        if got not in allowed:
+            acc.fail('crash_point_mixture', dict(case, kill_at=[name, when]),
+                     f'{spec}: real SIGKILL on entry to {name} #{when} ({args}) left the destination neither old nor new (sha {got}, files {sorted(snap)})',
+                     op=name, mode='strace')
+            break
+    acc.count('strace_kill_points', len(points))
+    acc.sample({'spec': spec, 'mode': 'strace', 'kill_points': len(points), 'dir_ops': real_dir_ops}, 1)
+    return acc
+
+
+# ------------------------------------------------------------------------------------------------
 
 def shard(spec) -> core.Acc:
     base = os.path.join('/dev/shm', f'verif-C12-{os.getpid()}')
@@ -350,6 +467,8 @@ def shard(spec) -> core.Acc:
     try:
         if spec[0] == 'scenario':
             return explore_scenario(base, spec[1])
+        if spec[0] == 'strace':
+            return explore_strace(base, spec[1])
         return explore_two_writers(base, spec[1], spec[2])
     finally:
         shutil.rmtree(base, ignore_errors=True)
@@ -385,9 +504,21 @@ def run(ctx: core.Ctx) -> None:
     for cfg in ({'writes': w}, {'writes': w, 'fail': 0}, {'writes': w, 'fail': 1}, {'writes': 1, 'stale': True},
                 {'writes': 1, 'stale': True, 'fail': 1}, {'writes': 1, 'same_dest': True}):
         shards.append(('two', cfg, None))
+    # conformance of the in-process operation model with real syscalls (strace), and real SIGKILLs
+    st_specs = scenario_list(ctx.quick)
+    if ctx.quick:
+        st_specs = [s for s in st_specs if s.get('chunks') in ('sf', 'sfs', 'L') and s['kind'] != 'bsp'][:8] + \
+                   [s for s in st_specs if s['kind'] in ('twice', 'text')][:2]
+    import shutil as _sh
+    if _sh.which('strace'):
+        shards += [('strace', s) for s in st_specs]
+        ctx.coverage_extra['strace_scenarios'] = len(st_specs)
+    else:
+        ctx.acc.caps.append('strace not available: kernel-level conformance pass skipped')
     k = ctx.seed % len(shards)
     core.par_map(shard, shards[k:] + shards[:k], ctx.acc)
     ctx.coverage_extra['scenarios'] = len(shards)
+    ctx.coverage_extra['traces_validated_against_impl'] = ctx.acc.counters.get('strace_kill_points', 0)
     ctx.coverage_extra['crash_model'] = 'process kill: directory contents at every operation boundary; power loss without fsync is outside the property'
     ctx.assumptions.append('file-system operations are intercepted at io.open / os.mkdir / os.replace / os.unlink and on the returned file '
                            'object (write, seek, flush, close); an operation the writer performed through another route would be unseen')
@@ -403,7 +534,9 @@ def replay(case: dict) -> list:
     base = os.path.join('/dev/shm', f'verif-C12-replay-{os.getpid()}')
     os.makedirs(base, exist_ok=True)
     try:
-        if 'two_writers' in case:
+        if case.get('mode') == 'strace':
+            acc = explore_strace(base, case['spec'])
+        elif 'two_writers' in case:
             acc = explore_two_writers(base, case['two_writers'], None)
         else:
             acc = explore_scenario(base, case['spec'])
